@@ -1480,6 +1480,8 @@ class AbsInt:
                 if not s["p"]["proj"] and s["p"]["l"] in fn.names:
                     nm = fn.names[s["p"]["l"]]
                     symname = self.name_syms.get((fn.stable, nm))
+                    if symname is None:
+                        symname = self.name_syms.get((fn.stable, s["p"]["l"]))   # keyed by local id (rename-proof)
                     if symname is not None and isinstance(val, Num) and val.lo <= val.hi and not val.nan:
                         # the rule asks for this user variable to be a symbol of its own (relations are stated against it)
                         self.symenv.ranges[symname] = (val.lo, val.hi)
